@@ -1,4 +1,5 @@
 import FitProps.Go2LeanBasetype
+import FitProps.Go2LeanDecoderSize
 /-!
 # C03 — tie of the base-type facts to the source by translation
 
@@ -6,12 +7,73 @@ The model of C03 reads the declared size / validity of a base type through `Fit.
 what `BaseType.Size()` / `Valid()`, translated from the CURRENT source of profile/basetype/basetype.go on every run
 (`FitModel/Generated/Go_basetype.lean`), compute — for every byte, without panic.
 
-PROPERTY THEOREMS (audited by ./check): C03_go2lean_size, C03_go2lean_valid
+PROPERTY THEOREMS (audited by ./check): C03_go2lean_size, C03_go2lean_valid, C03_go2lean_unknownShape, C03_go2lean_devShape,
+C03_go2lean_devField_shape, C03_go2lean_readN_cur, C03_go2lean_more, C03_go2lean_sizeZero, C03_go2lean_devSizeZero,
+C03_go2lean_header_badSize
+
+The size arithmetic of decoder/decoder.go (unit `decodersize`, `FitModel/Generated/Go_decodersize.lean`: statement blocks and
+conditions selected by function + assigned variable) is the decoder model's: see the `C03_go2lean_*` theorems below.
 -/
 namespace Fit.C03
-open Fit.Value Fit.Go2Lean
+open Fit.Value Fit.Go2Lean Fit.DecApi Fit.Gen Fit.Gen.DecApi
 
 theorem C03_go2lean_size : ∀ t < 256, Go.basetype.BaseType.Size t = some (btSize t) := bt_size
 theorem C03_go2lean_valid : ∀ t < 256, Go.basetype.BaseType.Valid t = some (btValid t) := bt_valid
+
+/-- a field the profile does not know: base type and profile type from the definition, array iff the size is a proper multiple
+of the base type's size, strings decide by counting terminators — the translated block is `fieldShape` (its `none` = the
+model's panic, `% 0` for a base type of size 0), whatever the overwritten variables held -/
+theorem C03_go2lean_unknownShape (info : FieldInfo) (fd : FieldDef) (hk : info.known = false) (hbt : fd.bt < 256)
+    (a : Bool) (b c : Nat) (d : Bool) :
+    fieldShape info fd = (match Go.decodersize.decodeFields_unknownShape a b c fd.bt fd.size d with
+      | none => .panic
+      | some o => .ok (o.field_BaseType, decide (o.field_Type = profileBool), o.field_Array, o.overrideStringArray)) :=
+  ds_unknownShape info fd hk hbt a b c d
+
+/-- a developer field: the same inference from the base type of its field description -/
+theorem C03_go2lean_devShape (info : FieldInfo) (hk : info.known = false) (dd : DevDef) (fdsc : Desc) (hbt : fdsc.bt < 256) :
+    fieldShape info ⟨dd.num, dd.size, fdsc.bt⟩ = (match Go.decodersize.decodeDeveloperFields_shape dd.size fdsc.bt with
+      | none => .panic
+      | some o => .ok (o.baseType, decide (o.profileType = profileBool), o.isArray, decide (fdsc.bt = btString))) :=
+  ds_devShape info hk dd fdsc hbt
+
+/-- … and that is what the model's `decodeDevField` does with it -/
+theorem C03_go2lean_devField_shape (d : MesgDef) (dd : DevDef) (fdsc : Desc) (s : St) (info : FieldInfo) (hk : info.known = false) :
+    decodeDevField d dd fdsc s =
+      (if !validBaseType fdsc.bt then .err .baseType else do
+        let (bt, isBoolF, arr, ovr) ← fieldShape info ⟨dd.num, dd.size, fdsc.bt⟩
+        if dd.size = 0 then pure (none, s) else
+        let rs := readShape dd.size bt isBoolF arr
+        let (v, s) ← readValue dd.size d.arch rs.1 rs.2.1 rs.2.2 ovr s
+        let v := if rs.1 ≠ bt then convertBytesToValue (sliceUint8Of v) d.arch bt else v
+        pure (some ⟨dd.num, dd.idx, v⟩, s)) := ds_devField_shape d dd fdsc s info hk
+
+/-- `readN`: `d.cur` (uint32) advances by the number of bytes read, as in the model -/
+theorem C03_go2lean_readN_cur (k : Nat) (hk : k < 2 ^ 31) (s : St) (b : List Nat) (s' : St) (dn : Int)
+    (h : readN k s = .ok (b, s')) : s'.q.cur = (Go.decodersize.readN_counters s.q.cur dn (k : Int)).d_cur :=
+  ds_readN_cur k hk s b s' dn h
+
+/-- the test of the message loop, `d.cur < d.fileHeader.DataSize`, is the model's -/
+theorem C03_go2lean_more (fuel : Nat) (s : St) :
+    (Go.decodersize.decodeMessages_more s.q.cur s.q.hdr.dataSize = false → decodeMessages (fuel + 1) s = (s, [], .ok ())) ∧
+    (Go.decodersize.decodeMessages_more s.q.cur s.q.hdr.dataSize = true → decodeMessages 0 s = (s, [], .hang)) := ds_more fuel s
+
+theorem C03_go2lean_sizeZero (d : MesgDef) (fd : FieldDef) (s : St) (sh : Nat × Bool × Bool × Bool)
+    (hs : fieldShape (s.o.fac.create d.mesgNum fd.num) fd = .ok sh)
+    (hz : Go.decodersize.decodeFields_sizeZero fd.size = true) : decodeField d fd s = .ok (none, s) := ds_sizeZero d fd s sh hs hz
+
+theorem C03_go2lean_devSizeZero (d : MesgDef) (dd : DevDef) (fdsc : Desc) (s : St) (hv : validBaseType fdsc.bt = true)
+    (hbt : btSize fdsc.bt ≠ 0)
+    (hz : Go.decodersize.decodeDeveloperFields_sizeZero dd.size = true) : decodeDevField d dd fdsc s = .ok (none, s) :=
+  ds_devSizeZero d dd fdsc s hv hbt hz
+
+theorem C03_go2lean_header_badSize (s s1 : St) (size : Nat) (h : rawRead 1 s = .ok ([size], s1))
+    (hb : Go.decodersize.decodeFileHeader_badSize size = true) : decodeFileHeader s = .err .notFit :=
+  ds_header_badSize s s1 size h hb
+
+/-- non-vacuity: an unknown uint16 field of 6 bytes is an array of the definition's base type; of 5 bytes it is not -/
+example : (Go.decodersize.decodeFields_unknownShape false 0 0 0x84 6 false).map (fun o => (o.field_Array, o.field_BaseType, o.field_Type)) = some (true, 0x84, 4) ∧
+    (Go.decodersize.decodeFields_unknownShape false 0 0 0x84 5 false).map (·.field_Array) = some false ∧
+    (Go.decodersize.decodeFields_unknownShape false 0 0 0x33 5 false).isNone := by decide
 
 end Fit.C03
